@@ -232,7 +232,7 @@ var scalars = map[string]reflect.Type{
 	"dur": reflect.TypeOf(time.Duration(0)), "ip": reflect.TypeOf(net.IP{}), "uuid": reflect.TypeOf(gocql.UUID{}),
 	"time": reflect.TypeOf(time.Time{}), "bigint": reflect.TypeOf(big.Int{}), "dec": decType,
 	"cqldur": reflect.TypeOf(gocql.Duration{}),
-	"iface": reflect.TypeOf((*interface{})(nil)).Elem(),
+	"iface":  reflect.TypeOf((*interface{})(nil)).Elem(),
 }
 
 // ScalarNames lists the scalar destination words in a fixed order.
